@@ -215,7 +215,26 @@ func checkMembership(w *World, contact *flows.Contact, sa flows.SessionAssets, e
 		if !g.UsesQuery() {
 			continue
 		}
-		in := contact.Groups().FindByUUID(g.UUID()) != nil
+		// membership as the host sees it: the groups listed in the contact's JSON (not the list's own lookup)
+		if cj == nil {
+			json.Unmarshal(mustJSON(contact), &cj)
+			fieldTypes = map[string]string{}
+			for _, f := range sa.Fields().All() {
+				fieldTypes[f.Key()] = string(f.Type())
+			}
+		}
+		in := false
+		if gl, _ := cj["groups"].([]any); gl != nil {
+			for _, x := range gl {
+				var u string
+				if m, ok := x.(map[string]any); ok {
+					u, _ = m["uuid"].(string)
+				}
+				if u == string(g.UUID()) {
+					in = true
+				}
+			}
+		}
 		q1 := queryResult(env1, sa, g, contact)
 		q2 := q1
 		if env2 != nil {
